@@ -46,18 +46,22 @@ func QuietLogger() *zap.Logger {
 }
 
 type Line struct {
-	ID     int           `json:"id"`
-	Source int           `json:"src"`
-	Stream string        `json:"stream"`
-	Dirs   []string      `json:"dirs,omitempty"`    // directive for action i ("", pass, discard, break)
-	Msg    string        `json:"msg,omitempty"`     // join field: "S.." start, "C.." continuation, other = plain
-	Kids   int           `json:"kids,omitempty"`    // >0: array field for the split action
-	Drop   bool          `json:"drop,omitempty"`    // matched by the real discard action
-	NoSel  bool          `json:"nosel,omitempty"`   // the event does not satisfy the join action's selector (match_fields / do_if)
-	Reject bool          `json:"reject,omitempty"`  // the input's PassEvent refuses it (as the file input does for offsets already committed)
-	MsgNum bool          `json:"msg_num,omitempty"` // the join field is present but a number
-	Bad    int           `json:"bad,omitempty"`     // 1 undecodable, 2 empty line
-	Pause  time.Duration `json:"pause,omitempty"`
+	ID     int      `json:"id"`
+	Source int      `json:"src"`
+	Stream string   `json:"stream"`
+	Dirs   []string `json:"dirs,omitempty"`    // directive for action i ("", pass, discard, break)
+	Msg    string   `json:"msg,omitempty"`     // join field: "S.." start, "C.." continuation, other = plain
+	Kids   int      `json:"kids,omitempty"`    // >0: array field for the split action
+	Drop   bool     `json:"drop,omitempty"`    // matched by the real discard action
+	NoSel  bool     `json:"nosel,omitempty"`   // the event does not satisfy the join action's selector (match_fields / do_if)
+	Reject bool     `json:"reject,omitempty"`  // the input's PassEvent refuses it (as the file input does for offsets already committed)
+	MsgNum bool     `json:"msg_num,omitempty"` // the join field is present but a number
+	// Tick: sent when the clock reaches the first 200 ms mark (the streamer's heart-beat period, counted from the
+	// pipeline's start) more than one event time-out ahead, plus TickOff: the put races with the time-out delivery
+	Tick    bool          `json:"tick,omitempty"`
+	TickOff time.Duration `json:"tick_off,omitempty"`
+	Bad     int           `json:"bad,omitempty"` // 1 undecodable, 2 empty line
+	Pause   time.Duration `json:"pause,omitempty"`
 }
 
 type ActionCfg struct {
@@ -208,6 +212,9 @@ func (h *H) Gen(rng *rand.Rand, tier, prop string) core.Cfg {
 		}
 		switch {
 		case core.Chance(rng, 0.7):
+		case hasJoin && core.Chance(rng, 0.25):
+			l.Tick = true
+			l.TickOff = time.Duration(rng.Int64N(int64(600*time.Microsecond))) - 300*time.Microsecond
 		case core.Chance(rng, 0.8):
 			l.Pause = core.DurBetween(rng, time.Millisecond, 200*time.Millisecond)
 		default:
@@ -1025,6 +1032,7 @@ func (h *H) Run(cc core.Cfg, sim *simrt.Sim) *core.Outcome {
 		if cfg.DLQ != nil {
 			p.SetDeadQueueOutput(&pipeline.OutputPluginInfo{PluginStaticInfo: &pipeline.PluginStaticInfo{Type: "simdlq"}, PluginRuntimeInfo: &pipeline.PluginRuntimeInfo{Plugin: &simsink.Plugin{Cfg: *cfg.DLQ, Obs: r, Ctx: ctx}}})
 		}
+		t0 := simrt.SimNow()
 		p.Start()
 		sim.SetOnIdle(func() {
 			// C04 "a processor asleep while work is queued": nothing can run at this instant, so a stream that
@@ -1045,6 +1053,13 @@ func (h *H) Run(cc core.Cfg, sim *simrt.Sim) *core.Outcome {
 				for _, l := range lines {
 					if l.Pause > 0 {
 						simrt.Sleep(l.Pause)
+					}
+					if l.Tick {
+						const beat = 200 * time.Millisecond
+						at := ((simrt.SimNow()-t0+cfg.EventTimeout)/beat+1)*beat + t0 + l.TickOff
+						if d := at - simrt.SimNow(); d > 0 {
+							simrt.Sleep(d)
+						}
 					}
 					x := r.byID[l.ID]
 					x.inCallT = simrt.SimNow()
@@ -1138,6 +1153,9 @@ func (r *run) workloadTime() time.Duration {
 		var t time.Duration
 		for _, l := range lines {
 			t += l.Pause
+			if l.Tick {
+				t += r.cfg.EventTimeout + 400*time.Millisecond
+			}
 		}
 		worst = max(worst, t)
 	}
